@@ -100,14 +100,19 @@ def dominant_tone(rng, n):
     return x * rng.choice([1.0, 1.0, 0.1, 20.0]) + rng.choice([0.0, 0.0, 0.02]) * t / n
 
 
-def _call_gni(x, o):
+def _call_gni(x, o, dtype=None):
     import emd
-    return emd.sift.get_next_imf(np.array(x, dtype=float), envelope_opts=S.env_kwargs(o), extrema_opts=S.ext_kwargs(o),
-                                 **S.imf_kwargs(o))
+    X = np.array(x, dtype=float)
+    if dtype not in (None, 'float64'):
+        X = X.astype(dtype)
+    return emd.sift.get_next_imf(X, envelope_opts=S.env_kwargs(o), extrema_opts=S.ext_kwargs(o), **S.imf_kwargs(o))
 
 
-def _peel(x, o, layers, with_paths=True):
-    """S.peel (manual peeling with the public get_next_imf, exit path of every layer) with writable inputs"""
+def _peel(x, o, layers, with_paths=True, dtype=None):
+    """S.peel (manual peeling with the public get_next_imf, exit path of every layer) with writable inputs.
+    dtype: storage type of the input signal: the FIRST extraction sees the signal as stored (exactly what sift() hands to
+    get_next_imf; e.g. the SD metric of an int16 signal is evaluated in wrapped int16 arithmetic on the first iteration, which is
+    a matter of the stopping rule (C04), not of C01); every later residual is float64 in sift() as well."""
     X = np.array(x, dtype=float)[:, None]
     rows = []
     r = X.copy()
@@ -125,7 +130,7 @@ def _peel(x, o, layers, with_paths=True):
             path = 'envelope-raises'
         rin = r[:, 0].copy()
         try:
-            c, f = _call_gni(rin, o)
+            c, f = _call_gni(rin, o, dtype if k == 0 else None)
         except S.Timeout:
             raise
         except Exception as e:  # noqa
@@ -299,7 +304,7 @@ class SiftRun(Stream):
                 return out
         try:
             with S.time_limit(IMPL_TIMEOUT):
-                rows = _peel(x, o, K + 2)
+                rows = _peel(x, o, K + 2, dtype=case.get('dtype'))
             out['table'] = [[S.fr_list(r), None if c is None else S.fr_list(c), f, err, path] for r, c, f, err, path in rows]
         except Exception as e:  # noqa
             out['table_error'] = err_kind(e)
